@@ -5,6 +5,7 @@ package objects
 
 import (
 	"encoding/binary"
+	"fmt"
 	"io"
 
 	"github.com/wrgl/wrgl/pkg/encoding"
@@ -39,6 +40,9 @@ func writeValueCounts(w io.Writer, buf encoding.Bufferer, a ValueCounts) (int64,
 	}
 	total := int64(n)
 	for _, vc := range a {
+		if len(vc.Value) > MaxStrLen {
+			return 0, fmt.Errorf("value is too long (%d > %d bytes)", len(vc.Value), MaxStrLen)
+		}
 		binary.BigEndian.PutUint32(b, uint32(vc.Count))
 		n, err := w.Write(b)
 		if err != nil {
